@@ -564,7 +564,11 @@ theorem calls_gc_vs_writer_on_orphan_witness :
 
 /-- two deleters of the SAME artifact (no writer, no lost update): both read the metadata, both decrement every
     chunk; the chunk shared with another artifact drops to 0 references while that artifact exists, and a later
-    `gc_cycle` removes it.  Replayed on the real store (`conc.directed` double-delete-then-gc). -/
+    `gc_cycle` removes it.  Replayed on the real store first on every run (`conc.directed` double-delete-then-gc) and
+    reported as the known finding `tensor_blob.delete/double_decrement`; the harness files a failure under that
+    class only for chunks whose `putC` appears for two deleter threads of the same artifact in the observed call
+    trace (here: `putC [1]` by thread 0 and by thread 1).  Run one after the other the same two deleters are
+    harmless (the `example` below; `conc.directed` double-delete-serial). -/
 theorem concurrent_double_delete_witness :
     let s0 := run hid cfg1 State.init [.put 1 [1], .put 2 [1]]
     let ths : List (Th (List Nat)) := [Th.deleter 0, Th.deleter 0]
@@ -575,6 +579,15 @@ theorem concurrent_double_delete_witness :
        some (.delM 0), some (.delM 0)] ∧
     refsOf [1] s0.chunks = 2 ∧ r.2.all Th.isDone = true ∧ refsOf [1] r.1.chunks = 0 ∧ occ [1] r.1.arts = 1 ∧
     get r.1 1 = .ok [1] ∧ get s2 1 = .error .chunkMissing := by decide
+
+/-- control for `concurrent_double_delete_witness`: the second deleter starts after the first has removed the
+    metadata record, reads nothing and decrements nothing; a1 survives the collection -/
+example :
+    let s0 := run hid cfg1 State.init [.put 1 [1], .put 2 [1]]
+    let ths : List (Th (List Nat)) := [Th.deleter 0, Th.deleter 0]
+    let r := runCalls hid s0 ths [0, 0, 0, 0, 1]
+    let s2 := (gcSel 1000 (fun _ => true) r.1).1
+    r.2.all Th.isDone = true ∧ refsOf [1] r.1.chunks = 1 ∧ get s2 1 = .ok [1] := by decide
 
 /-- OUTSIDE the property's quantifier (it names writers and deleters), recorded because the consequence is a
     collected live chunk: a metadata update (`set_meta`: get the record, put it back) that overlaps a `delete` of
